@@ -119,6 +119,8 @@ type Result struct {
 	Extra       map[string]any `json:"extra,omitempty"`
 	// Cases maps the case index used in cases.v to a replayable description.
 	Cases []any `json:"cases,omitempty"`
+
+	sigCount map[string]int
 }
 
 func NewResult() *Result {
@@ -128,10 +130,21 @@ func NewResult() *Result {
 func (r *Result) Count(k string) { r.Dist[k]++ }
 
 func (r *Result) Fail(sig, what string, input any) {
-	if len(r.Failures) < 200 {
+	// Keep a few failures per signature and never let one class crowd another out:
+	// a new signature is always recorded (up to a generous global cap).
+	if r.sigCount == nil {
+		r.sigCount = map[string]int{}
+	}
+	r.sigCount[sig]++
+	r.Dist["failures_total"]++
+	if r.sigCount[sig] > 6 {
+		r.Dist["failures_over_6_per_signature_not_stored"]++
+		return
+	}
+	if len(r.Failures) < 3000 {
 		r.Failures = append(r.Failures, Failure{sig, what, input})
 	} else {
-		r.Dist["failures_dropped_over_200"]++
+		r.Dist["failures_dropped_over_3000"]++
 	}
 }
 
